@@ -2,6 +2,7 @@ package main
 
 import (
 	"fmt"
+	"go/ast"
 	"os"
 	"sort"
 	"strings"
@@ -78,6 +79,13 @@ func main() {
 		}
 	}
 	sort.Strings(props)
+	uniq := props[:0]
+	for i, id := range props {
+		if i == 0 || id != props[i-1] {
+			uniq = append(uniq, id)
+		}
+	}
+	props = uniq
 	if tier != "quick" && tier != "thorough" {
 		usage()
 	}
@@ -99,6 +107,7 @@ func main() {
 	}
 	for ci, opt := range configs {
 		p, err := Load(opt)
+		var expanded *expandedProgram
 		for _, id := range props {
 			r := reports[id]
 			if err != nil {
@@ -148,6 +157,7 @@ func main() {
 				continue
 			}
 			runChecker(id, p, r)
+			secondOpinion(id, tier, opt, p, r, &expanded)
 		}
 	}
 	for _, id := range props {
@@ -168,4 +178,135 @@ func runChecker(id string, p *Program, r *Report) {
 		}
 	}()
 	checkers[id].run(p, r)
+}
+
+// expandedProgram: a helper-expanded form of one loaded configuration (expand.go).
+type expandedProgram struct {
+	p     *Program
+	calls int
+	err   error
+}
+
+func buildExpanded(opt LoadOptions, p *Program, only func(fd *ast.FuncDecl) bool) *expandedProgram {
+	e := &expandedProgram{}
+	overlay, n := expandHelpers(p, only)
+	e.calls = n
+	if n > 0 {
+		o2 := opt
+		o2.Overlay = overlay
+		e.p, e.err = Load(o2)
+	}
+	return e
+}
+
+// secondOpinion: rules that fail on the program as written are decided again on helper-expanded forms of the program; a rule
+// counts as violated only when it fails on every form tried (all forms compute the same thing by construction). Two forms:
+// every expandable call expanded; and only the helpers that the failing obligations point at (so that predicates shared by the
+// whole package, which some rules anchor on, stay in place).
+func secondOpinion(id, tier string, opt LoadOptions, p *Program, r *Report, cache **expandedProgram) {
+	if os.Getenv("ANKO_NOEXPAND") != "" {
+		return
+	}
+	bad := r.failingRules()
+	if len(bad) == 0 {
+		return
+	}
+	if *cache == nil {
+		*cache = buildExpanded(opt, p, nil)
+	}
+	all := *cache
+	if all.calls == 0 {
+		r.Note("helper_expansion", "no call of an expression helper could be expanded: verdicts are those of the program as written")
+		return
+	}
+	note := map[string]interface{}{"rules_failing_as_written": ruleKeys(bad)}
+	still := bad
+	try := func(label string, e *expandedProgram) {
+		if e.calls == 0 || len(still) == 0 {
+			return
+		}
+		if e.err != nil || e.p == nil {
+			note[label] = fmt.Sprintf("does not load (%v)", e.err)
+			return
+		}
+		r2 := NewReport(id, tier)
+		r2.Secondary = r.Secondary
+		runChecker(id, e.p, r2)
+		bad2 := r2.failingRules()
+		var cleared []string
+		next := map[string]bool{}
+		for rule := range still {
+			if bad2[rule] {
+				next[rule] = true
+			}
+		}
+		for i := range r.Obls {
+			o := &r.Obls[i]
+			if (o.Verdict == "violation" || o.Verdict == "undecided") && still[o.Rule] && !bad2[o.Rule] {
+				o.Verdict = "ok"
+				o.By = "holds on the helper-expanded program (" + label + ", " + fmt.Sprint(e.calls) + " calls of expression helpers replaced by their bodies); as written: " + o.By
+				cleared = append(cleared, o.Rule+"|"+o.Instance)
+			}
+		}
+		sort.Strings(cleared)
+		note[label] = map[string]interface{}{"calls_expanded": e.calls, "rules_still_failing": ruleKeys(bad2), "obligations_discharged": cleared}
+		still = next
+	}
+	try("all helpers", all)
+	if len(still) > 0 {
+		// the functions the remaining failures point at: by site (file:line) and by name at the head of the instance
+		type span struct {
+			file       string
+			from, to   int
+			name, recv string
+		}
+		blamed := map[*ast.FuncDecl]bool{}
+		for _, pk := range p.All {
+			for _, f := range pk.Syntax {
+				for _, d := range f.Decls {
+					fd, ok := d.(*ast.FuncDecl)
+					if !ok {
+						continue
+					}
+					from, to := p.Fset.Position(fd.Pos()), p.Fset.Position(fd.End())
+					file := p.Pos(fd.Pos())
+					if i := strings.LastIndex(file, ":"); i >= 0 {
+						file = file[:i]
+					}
+					for _, o := range r.Obls {
+						if (o.Verdict != "violation" && o.Verdict != "undecided") || !still[o.Rule] {
+							continue
+						}
+						if i := strings.LastIndex(o.Site, ":"); i >= 0 && o.Site[:i] == file {
+							line := 0
+							fmt.Sscan(o.Site[i+1:], &line)
+							if line >= from.Line && line <= to.Line {
+								blamed[fd] = true
+							}
+						}
+						head := o.Instance
+						if i := strings.Index(head, "|"); i >= 0 {
+							head = head[:i]
+						}
+						if head == fd.Name.Name || strings.HasSuffix(head, ")."+fd.Name.Name) || strings.HasSuffix(head, "."+fd.Name.Name) {
+							blamed[fd] = true
+						}
+					}
+				}
+			}
+		}
+		if len(blamed) > 0 {
+			try("helpers used only by the blamed functions", buildExpanded(opt, p, func(fd *ast.FuncDecl) bool { return blamed[fd] }))
+		}
+	}
+	r.Note("helper_expansion", note)
+}
+
+func ruleKeys(m map[string]bool) []string {
+	out := []string{}
+	for k := range m {
+		out = append(out, k)
+	}
+	sort.Strings(out)
+	return out
 }
